@@ -12,7 +12,12 @@
   `UnitSafe P b` (decidable; evaluated by the driver for every test case): no instance,
             before the unit pass, has both a unit argument and an argument that is a
             function returning unit.  It is needed because of finding C14-F4
-            (`finding_C14_F4_unit`, `finding_C14_F4_twice` below).
+            (`finding_C14_F4_unit`, `finding_C14_F4_twice` below) for the code WITHOUT the
+            repair proposed in fixes_proposed/C14-F4.diff.
+  The model takes a flag `fx` (true = the code with that repair: the `elif` branch of
+  `Arrow.without_unit_arguments` removed).  The `…_partial` theorems hold for both values under
+  `UnitSafe`; `C14_sound_complete`, `C14_unit`, `C14_idempotent`, `C14_model_eq_spec_exec` are
+  for the repaired code and need no `UnitSafe`.
 -/
 import PS.Proofs.Dsl
 import PS.Proofs.DslSpec
@@ -28,9 +33,21 @@ def UnitSafe (P : List Prim) (bound : Nat) : Prop := ∀ y ∈ preUnit P bound, 
 instance (P : List Prim) : Decidable (WF P) := by unfold WF; infer_instance
 instance (P : List Prim) (b : Nat) : Decidable (UnitSafe P b) := by unfold UnitSafe; infer_instance
 
-/-- **Ground.** After instantiation no primitive has a polymorphic type or a sum type. -/
-theorem C14_ground (P : List Prim) (bound : Nat) (hP : WF P) :
-    ∀ r ∈ instantiate P bound, Ty.isPolymorphic r.2 = false ∧ Ty.hasSum r.2 = false := by
+/-- the unit pass does what the specification says on every instance: outside the region of the
+    finding, or everywhere when the repair is present -/
+def UnitStepOK (fx : Bool) (P : List Prim) (bound : Nat) : Prop :=
+  ∀ y ∈ preUnit P bound, unitStep fx y = (y.1, dropUnit y.2)
+
+theorem unitStepOK_of_safe {fx : Bool} {P : List Prim} {bound : Nat} (hU : UnitSafe P bound) :
+    UnitStepOK fx P bound := fun y hy => unitStep_safe y (hU y hy)
+
+theorem unitStepOK_fixed (P : List Prim) (bound : Nat) : UnitStepOK true P bound :=
+  fun y _ => unitStep_fixed y
+
+/-- **Ground.** After instantiation no primitive has a polymorphic type or a sum type
+    (code with or without the repair of C14-F4). -/
+theorem C14_ground (fx : Bool) (P : List Prim) (bound : Nat) (hP : WF P) :
+    ∀ r ∈ instantiate fx P bound, Ty.isPolymorphic r.2 = false ∧ Ty.hasSum r.2 = false := by
   intro r hr
   rw [mem_instantiate] at hr
   obtain ⟨y, hy, e⟩ := hr
@@ -47,66 +64,86 @@ theorem C14_ground (P : List Prim) (bound : Nat) (hP : WF P) :
       withoutUnit_preserves (fun t => hasSum t = false) hasSum_arrow v hs⟩
   · exact ⟨hg, hs⟩
 
-/-- **Sound and complete.** The primitives after instantiation are exactly the specified
-    instances: same name; type = unit arguments dropped from a choice of one alternative per
-    sum of the declared type under a simultaneous substitution of its type variables by
-    types of the universe (base types except unit, lists, lists of lists, one-argument
-    functions between base types) within the bound that every variable of that name accepts.
-    Full statement (without `UnitSafe`) is violated by the code: see `finding_C14_F4_unit`. -/
-theorem C14_sound_complete_partial (P : List Prim) (bound : Nat) (hP : WF P) (hU : UnitSafe P bound)
-    (r : Prim) : r ∈ instantiate P bound ↔ Instances P bound r := by
+theorem sound_complete_core (fx : Bool) (P : List Prim) (bound : Nat) (hP : WF P)
+    (hS : UnitStepOK fx P bound) (r : Prim) : r ∈ instantiate fx P bound ↔ Instances P bound r := by
   rw [mem_instantiate]
   constructor
   · rintro ⟨y, hy, e⟩
-    have hsafe := hU y hy
+    have hstep := hS y hy
     rw [mem_preUnit_spec P hP] at hy
     obtain ⟨p, hp, σ, hσ, c, hc, ey⟩ := hy
     subst ey
-    rw [unitStep_safe _ hsafe] at e
+    rw [hstep] at e
     subst e
     exact ⟨p, hp, rfl, σ, hσ, c, hc, rfl⟩
   · rintro ⟨p, hp, hn, σ, hσ, c, hc, e⟩
     have hy : (p.1, c) ∈ preUnit P bound := (mem_preUnit_spec P hP bound _).mpr ⟨p, hp, σ, hσ, c, hc, rfl⟩
     refine ⟨(p.1, c), hy, ?_⟩
-    rw [unitStep_safe _ (hU _ hy)]
+    rw [hS _ hy]
     exact Prod.ext hn e
 
-/-- every primitive present after instantiation is an admissible instance of a declared one -/
-theorem C14_sound_partial (P : List Prim) (bound : Nat) (hP : WF P) (hU : UnitSafe P bound) :
-    ∀ r ∈ instantiate P bound, Instances P bound r :=
-  fun r hr => (C14_sound_complete_partial P bound hP hU r).mp hr
-
-/-- every admissible instance of a declared primitive is present after instantiation -/
-theorem C14_complete_partial (P : List Prim) (bound : Nat) (hP : WF P) (hU : UnitSafe P bound) :
-    ∀ r, Instances P bound r → r ∈ instantiate P bound :=
-  fun r hr => (C14_sound_complete_partial P bound hP hU r).mpr hr
-
-/-- **Once.** No primitive is present twice (holds for the repaired code C14-F2; before the
-    repair the sum pass and the unit pass produced duplicates). -/
-theorem C14_once (P : List Prim) (bound : Nat) : (instantiate P bound).Nodup :=
-  nodup_dedup _
-
-/-- **Unit.** No primitive keeps a unit argument, the other arguments and the result are
-    those of the chosen instance. -/
-theorem C14_unit_partial (P : List Prim) (bound : Nat) (hU : UnitSafe P bound) :
-    ∀ r ∈ instantiate P bound, hasUnitArg r.2 = false ∧
+theorem unit_core (fx : Bool) (P : List Prim) (bound : Nat) (hS : UnitStepOK fx P bound) :
+    ∀ r ∈ instantiate fx P bound, hasUnitArg r.2 = false ∧
       ∃ y ∈ preUnit P bound, r.1 = y.1 ∧
         Ty.arguments r.2 = (Ty.arguments y.2).filter (fun a => a != Ty.unit) ∧
         Ty.returns r.2 = Ty.returns y.2 := by
   intro r hr
   rw [mem_instantiate] at hr
   obtain ⟨y, hy, e⟩ := hr
-  rw [unitStep_safe _ (hU y hy)] at e
+  rw [hS y hy] at e
   subst e
   exact ⟨hasUnitArg_dropUnit _, y, hy, rfl, arguments_dropUnit _, returns_dropUnit _⟩
 
-/-- **Idempotent.** Instantiating twice (with any second bound) changes nothing. -/
-theorem C14_idempotent_partial (P : List Prim) (bound bound' : Nat) (hP : WF P) (hU : UnitSafe P bound) :
-    instantiate (instantiate P bound) bound' = instantiate P bound := by
-  apply instantiate_fixed _ _ (C14_once P bound)
+/-- **Once.** No primitive is present twice (holds for the repaired code C14-F2; before the
+    repair the sum pass and the unit pass produced duplicates). -/
+theorem C14_once (fx : Bool) (P : List Prim) (bound : Nat) : (instantiate fx P bound).Nodup :=
+  nodup_dedup _
+
+theorem idempotent_core (fx : Bool) (P : List Prim) (bound bound' : Nat) (hP : WF P)
+    (hS : UnitStepOK fx P bound) :
+    instantiate fx (instantiate fx P bound) bound' = instantiate fx P bound := by
+  apply instantiate_fixed _ _ (C14_once fx P bound)
   intro r hr
-  have hg := C14_ground P bound hP r hr
-  exact ⟨(isPolymorphic_false_iff _).mp hg.1, hg.2, (C14_unit_partial P bound hU r hr).1⟩
+  have hg := C14_ground fx P bound hP r hr
+  exact ⟨(isPolymorphic_false_iff _).mp hg.1, hg.2, (unit_core fx P bound hS r hr).1⟩
+
+/-! ### the code with or without the repair, outside the region of C14-F4 (`UnitSafe`) -/
+
+/-- **Sound and complete.** The primitives after instantiation are exactly the specified
+    instances: same name; type = unit arguments dropped from a choice of one alternative per
+    sum of the declared type under a simultaneous substitution of its type variables by
+    types of the universe (base types except unit, lists, lists of lists, one-argument
+    functions between base types) within the bound that every variable of that name accepts.
+    Full statement (without `UnitSafe`) is violated by the code without the repair: see
+    `finding_C14_F4_unit`; for the code with the repair see `C14_sound_complete`. -/
+theorem C14_sound_complete_partial (fx : Bool) (P : List Prim) (bound : Nat) (hP : WF P)
+    (hU : UnitSafe P bound) (r : Prim) : r ∈ instantiate fx P bound ↔ Instances P bound r :=
+  sound_complete_core fx P bound hP (unitStepOK_of_safe hU) r
+
+/-- every primitive present after instantiation is an admissible instance of a declared one -/
+theorem C14_sound_partial (fx : Bool) (P : List Prim) (bound : Nat) (hP : WF P) (hU : UnitSafe P bound) :
+    ∀ r ∈ instantiate fx P bound, Instances P bound r :=
+  fun r hr => (C14_sound_complete_partial fx P bound hP hU r).mp hr
+
+/-- every admissible instance of a declared primitive is present after instantiation -/
+theorem C14_complete_partial (fx : Bool) (P : List Prim) (bound : Nat) (hP : WF P) (hU : UnitSafe P bound) :
+    ∀ r, Instances P bound r → r ∈ instantiate fx P bound :=
+  fun r hr => (C14_sound_complete_partial fx P bound hP hU r).mpr hr
+
+/-- **Unit.** No primitive keeps a unit argument, the other arguments and the result are
+    those of the chosen instance. -/
+theorem C14_unit_partial (fx : Bool) (P : List Prim) (bound : Nat) (hU : UnitSafe P bound) :
+    ∀ r ∈ instantiate fx P bound, hasUnitArg r.2 = false ∧
+      ∃ y ∈ preUnit P bound, r.1 = y.1 ∧
+        Ty.arguments r.2 = (Ty.arguments y.2).filter (fun a => a != Ty.unit) ∧
+        Ty.returns r.2 = Ty.returns y.2 :=
+  unit_core fx P bound (unitStepOK_of_safe hU)
+
+/-- **Idempotent.** Instantiating twice (with any second bound) changes nothing. -/
+theorem C14_idempotent_partial (fx : Bool) (P : List Prim) (bound bound' : Nat) (hP : WF P)
+    (hU : UnitSafe P bound) :
+    instantiate fx (instantiate fx P bound) bound' = instantiate fx P bound :=
+  idempotent_core fx P bound bound' hP (unitStepOK_of_safe hU)
 
 /-- The universe of the model is the documented one. -/
 theorem C14_universe (P : List Prim) (u : Ty) : u ∈ typeUniverse (basicTypes P) ↔ InUniverse P u :=
@@ -129,10 +166,49 @@ theorem C14_spec_exec_once (P : List Prim) (bound : Nat) : (specInstances P boun
 
 /-- model and executable specification have the same elements (both without repetition:
     `C14_once`, `C14_spec_exec_once`).
-    Full statement (without `UnitSafe`) is violated by the code: see `finding_C14_F4_unit`. -/
-theorem C14_model_eq_spec_exec_partial (P : List Prim) (bound : Nat) (hP : WF P)
-    (hU : UnitSafe P bound) (r : Prim) : r ∈ instantiate P bound ↔ r ∈ specInstances P bound := by
-  rw [C14_sound_complete_partial P bound hP hU r, C14_spec_exec]
+    Full statement (without `UnitSafe`) is violated by the code without the repair. -/
+theorem C14_model_eq_spec_exec_partial (fx : Bool) (P : List Prim) (bound : Nat) (hP : WF P)
+    (hU : UnitSafe P bound) (r : Prim) : r ∈ instantiate fx P bound ↔ r ∈ specInstances P bound := by
+  rw [C14_sound_complete_partial fx P bound hP hU r, C14_spec_exec]
+
+/-! ### the code with the repair of C14-F4 (fixes_proposed/C14-F4.diff): no `UnitSafe` -/
+
+/-- **Sound and complete** (repaired code): for EVERY well-formed list of declarations and every
+    bound the primitives after instantiation are exactly the specified instances. -/
+theorem C14_sound_complete (P : List Prim) (bound : Nat) (hP : WF P) (r : Prim) :
+    r ∈ instantiate true P bound ↔ Instances P bound r :=
+  sound_complete_core true P bound hP (unitStepOK_fixed P bound) r
+
+theorem C14_sound (P : List Prim) (bound : Nat) (hP : WF P) :
+    ∀ r ∈ instantiate true P bound, Instances P bound r :=
+  fun r hr => (C14_sound_complete P bound hP r).mp hr
+
+theorem C14_complete (P : List Prim) (bound : Nat) (hP : WF P) :
+    ∀ r, Instances P bound r → r ∈ instantiate true P bound :=
+  fun r hr => (C14_sound_complete P bound hP r).mpr hr
+
+/-- **Unit** (repaired code): no primitive keeps a unit argument; the other arguments —
+    functions returning unit included — and the result are those of the chosen instance. -/
+theorem C14_unit (P : List Prim) (bound : Nat) :
+    ∀ r ∈ instantiate true P bound, hasUnitArg r.2 = false ∧
+      ∃ y ∈ preUnit P bound, r.1 = y.1 ∧
+        Ty.arguments r.2 = (Ty.arguments y.2).filter (fun a => a != Ty.unit) ∧
+        Ty.returns r.2 = Ty.returns y.2 :=
+  unit_core true P bound (unitStepOK_fixed P bound)
+
+/-- **Idempotent** (repaired code). -/
+theorem C14_idempotent (P : List Prim) (bound bound' : Nat) (hP : WF P) :
+    instantiate true (instantiate true P bound) bound' = instantiate true P bound :=
+  idempotent_core true P bound bound' hP (unitStepOK_fixed P bound)
+
+/-- model and executable specification have the same elements (repaired code) -/
+theorem C14_model_eq_spec_exec (P : List Prim) (bound : Nat) (hP : WF P) (r : Prim) :
+    r ∈ instantiate true P bound ↔ r ∈ specInstances P bound := by
+  rw [C14_sound_complete P bound hP r, C14_spec_exec]
+
+/-- the repaired `without_unit_arguments` is the specified removal of the unit arguments on every
+    type -/
+theorem C14_without_unit (t : Ty) : withoutUnit true t = dropUnit t := withoutUnit_fixed_eq_dropUnit t
 
 /-! ### finding C14-F4: `without_unit_arguments` rewrites function arguments returning unit -/
 
@@ -141,7 +217,7 @@ def tInt : Ty := Ty.prim "int"
 /-- `f : unit -> (int -> unit) -> int` becomes `f : int -> int`, not `(int -> unit) -> int` -/
 theorem finding_C14_F4_unit :
     let decl := Ty.arrow Ty.unit (Ty.arrow (Ty.arrow tInt Ty.unit) tInt)
-    instantiate [("f", decl)] 1 = [("f", Ty.arrow tInt tInt)] ∧
+    instantiate false [("f", decl)] 1 = [("f", Ty.arrow tInt tInt)] ∧
     dropUnit decl = Ty.arrow (Ty.arrow tInt Ty.unit) tInt ∧
     ¬ UnitSafe [("f", decl)] 1 := by
   decide
@@ -150,8 +226,19 @@ theorem finding_C14_F4_unit :
     changes it again -/
 theorem finding_C14_F4_twice :
     let decl := Ty.arrow Ty.unit (Ty.arrow (Ty.arrow Ty.unit Ty.unit) tInt)
-    instantiate [("f", decl)] 1 = [("f", Ty.arrow Ty.unit tInt)] ∧
-    instantiate (instantiate [("f", decl)] 1) 1 = [("f", tInt)] := by
+    instantiate false [("f", decl)] 1 = [("f", Ty.arrow Ty.unit tInt)] ∧
+    instantiate false (instantiate false [("f", decl)] 1) 1 = [("f", tInt)] := by
+  decide
+
+/-- with the repair both declarations are instantiated as specified: the function arguments are
+    kept, the unit argument is dropped, and a second instantiation changes nothing -/
+theorem fixed_C14_F4 :
+    let d1 := Ty.arrow Ty.unit (Ty.arrow (Ty.arrow tInt Ty.unit) tInt)
+    let d2 := Ty.arrow Ty.unit (Ty.arrow (Ty.arrow Ty.unit Ty.unit) tInt)
+    instantiate true [("f", d1)] 1 = [("f", Ty.arrow (Ty.arrow tInt Ty.unit) tInt)] ∧
+    instantiate true [("f", d2)] 1 = [("f", Ty.arrow (Ty.arrow Ty.unit Ty.unit) tInt)] ∧
+    instantiate true (instantiate true [("f", d2)] 1) 1 = instantiate true [("f", d2)] 1 ∧
+    WF [("f", d1)] ∧ WF [("f", d2)] := by
   decide
 
 /-! ### non-vacuity -/
@@ -167,14 +254,14 @@ def P : List Prim :=
 
 example : WF P ∧ UnitSafe P 1 := by decide
 -- instances that are present …
-example : ("map", Ty.arrow (Ty.arrow tInt tBool) (Ty.arrow (Ty.list tInt) (Ty.list tBool))) ∈ instantiate P 1 := by decide
-example : ("pick", Ty.arrow tBool tBool) ∈ instantiate P 2 := by decide
-example : ("opt", tBool) ∈ instantiate P 1 ∧ ("opt", Ty.arrow tInt tBool) ∈ instantiate P 1 := by decide
+example : ("map", Ty.arrow (Ty.arrow tInt tBool) (Ty.arrow (Ty.list tInt) (Ty.list tBool))) ∈ instantiate false P 1 := by decide
+example : ("pick", Ty.arrow tBool tBool) ∈ instantiate false P 2 := by decide
+example : ("opt", tBool) ∈ instantiate false P 1 ∧ ("opt", Ty.arrow tInt tBool) ∈ instantiate false P 1 := by decide
 -- … and their number: 4 for map, 2 for pick, 2 for opt, c, d
-example : (instantiate P 1).length = 10 := by decide
+example : (instantiate false P 1).length = 10 := by decide
 -- the restricted variable does not take a list type even when the bound allows it
-example : ("pick", Ty.arrow (Ty.list tInt) (Ty.list tInt)) ∉ instantiate (P.drop 1) 3 := by decide +kernel
-example : ("pick", Ty.arrow tInt tInt) ∈ instantiate (P.drop 1) 3 := by decide +kernel
+example : ("pick", Ty.arrow (Ty.list tInt) (Ty.list tInt)) ∉ instantiate false (P.drop 1) 3 := by decide +kernel
+example : ("pick", Ty.arrow tInt tInt) ∈ instantiate false (P.drop 1) 3 := by decide +kernel
 -- the executable specification: elements, the declarative fact obtained through `C14_spec_exec`,
 -- and agreement with the model through `C14_model_eq_spec_exec_partial`
 example : ("pick", Ty.arrow tBool tBool) ∈ specInstances P 2 := by decide
@@ -184,7 +271,18 @@ example : ¬ Instances P 2 ("pick", Ty.arrow (Ty.list tInt) (Ty.list tInt)) :=
   fun h => absurd ((C14_spec_exec P 2 _).mpr h) (by decide)
 example : (specInstances P 1).length = 10 ∧ (specInstances P 1).Nodup := by decide
 example : ("map", Ty.arrow (Ty.arrow tInt tBool) (Ty.arrow (Ty.list tInt) (Ty.list tBool))) ∈ specInstances P 1 :=
-  (C14_model_eq_spec_exec_partial P 1 (by decide) (by decide) _).mp (by decide)
+  (C14_model_eq_spec_exec_partial false P 1 (by decide) (by decide) _).mp (by decide)
+-- the repaired code on a DSL inside the former region of C14-F4: a unit argument next to a
+-- callback that returns unit (`each : unit | int -> ('a -> unit) -> 'a list -> unit`)
+def Q : List Prim :=
+  P ++ [("each", Ty.arrow (Ty.sum [Ty.unit, tInt])
+          (Ty.arrow (Ty.arrow (Ty.poly "a") Ty.unit) (Ty.arrow (Ty.list (Ty.poly "a")) Ty.unit)))]
+example : WF Q ∧ ¬ UnitSafe Q 1 := by decide
+example : ("each", Ty.arrow (Ty.arrow tInt Ty.unit) (Ty.arrow (Ty.list tInt) Ty.unit)) ∈ instantiate true Q 1 ∧
+    ("each", Ty.arrow (Ty.arrow tInt Ty.unit) (Ty.arrow (Ty.list tInt) Ty.unit)) ∉ instantiate false Q 1 ∧
+    ("each", Ty.arrow tInt (Ty.arrow (Ty.list tInt) Ty.unit)) ∈ instantiate false Q 1 := by decide +kernel
+example : Instances Q 1 ("each", Ty.arrow (Ty.arrow tInt Ty.unit) (Ty.arrow (Ty.list tInt) Ty.unit)) :=
+  (C14_sound_complete Q 1 (by decide) _).mp (by decide +kernel)
 end Example
 
 end PS.C14
